@@ -194,6 +194,20 @@ macro_rules! define_hasher {
             }
         }
 
+        /// Verification hook (only with `--cfg cryptocorrosion_verif`): read / overwrite the byte position.
+        #[cfg(cryptocorrosion_verif)]
+        impl<N> $name<N>
+        where
+            N: Unsigned + ArrayLength<u8> + NonZero + Default,
+        {
+            pub fn verif_counter(&self) -> u128 {
+                self.state.t.0 as u128
+            }
+            pub fn verif_set_counter(&mut self, v: u128) {
+                self.state.t.0 = v as u64;
+            }
+        }
+
         impl<N> Default for $name<N>
         where
             N: Unsigned + ArrayLength<u8> + NonZero + Default,
